@@ -52,6 +52,7 @@ type Exec struct {
 	sweepFn      *ssa.Function
 	missingDone  map[*ssa.Function]bool
 	rootReader   *IfaceV // the io.Reader / io.ReadWriter parameter of the verified function, if any
+	alloc0       *Term   // the allocation set on entry of the verified function
 	notes        map[string]int
 	root         *ssa.Function
 	rootName     string
